@@ -5,8 +5,8 @@ from .. import server_sim as S
 LEVEL = 'proof'
 
 PROFILE = {
-    'weights': {'open': 2, 'connect': 6, 'client_disconnect': 2, 'event': 1, 'ack': 12, 'emit': 1, 'emit_cb': 10,
-                'call': 3, 'api_disconnect': 2, 'enter': 0, 'leave': 0, 'close': 0, 'rooms': 0, 'lost': 2,
+    'weights': {'open': 2, 'connect': 6, 'client_disconnect': 1, 'event': 1, 'ack': 14, 'emit': 1, 'emit_cb': 12,
+                'call': 3, 'api_disconnect': 1, 'enter': 0, 'leave': 0, 'close': 0, 'rooms': 0, 'lost': 2,
                 'partial_binary': 0},
     'connect_outcomes': {'accept': 9, 'false': 1, 'refuse': 0, 'raise': 0},
 }
@@ -126,7 +126,7 @@ def hook(sc, cfg):
 
 def run(ctx):
     C.proof_step(ctx, ['call(): the wait primitive (eio.create_event().wait) is scripted: the nested inputs run while the caller waits'])
-    S.run_cases(ctx, PROFILE, ctx.scale(150, 3000), 45, oracle=oracle, nontrivial=nontrivial, gen_hook=hook)
+    S.run_cases(ctx, PROFILE, ctx.scale(150, 3000), 70, oracle=oracle, nontrivial=nontrivial, gen_hook=hook)
     ctx.coverage['rule'] = ('emits with callbacks / call() to individual clients on several namespaces interleaved with ACK and '
                             'BINARY_ACK packets from any client with correct, duplicate, never-issued, other-client, '
                             'other-namespace and 0 ids, disconnects and reconnects in between; both server families + model; '
